@@ -37,7 +37,7 @@ ASSUMPTIONS = [
 PROBES_REQUIRED = ["reader_opened_damaged_cache", "fs_crash_in_write", "fs_enospc",
                    "race_reader_saw_partial"]
 
-KINDS = ["trunc", "trunc", "trunc", "zero", "crash", "enospc", "race", "race", "zip"]
+KINDS = ["trunc", "trunc", "trunc", "zero", "crash", "enospc", "race", "race", "zip", "crash", "enospc-close"]
 PROTOS = proto.LISTING_PROTOCOLS
 
 
@@ -63,6 +63,13 @@ def gen(seed, index, tier):
         "sched_seed": rng.randrange(1 << 30),
         "handlers": "default",
     }
+    if kind in ("crash", "enospc", "enospc-close") and names and rng.random() < 0.6:
+        # the directory changes between the first listing and the interrupted rewrite of its cache
+        victim = rng.choice(names)
+        pre = (dname + "/") if dname else ""
+        sc["mutate"] = rng.choice([{"op": "delete", "p": pre + victim},
+                                   {"op": "rename", "p": pre + victim, "to": pre + "renamed-" + victim},
+                                   {"op": "create", "p": pre + "brand-new.txt"}])
     if kind == "race":
         sc["clients"] = [rng.choice(PROTOS) for _ in range(rng.randrange(2, 4))]
         sc["preempt_p"] = rng.choice([0.0, 0.01, 0.05, 0.2])
@@ -146,14 +153,28 @@ def execute(sc, tape=None):
         if sc["kind"] == "zip":
             sel = common.selector_of((sc["dir"] + "/" if sc["dir"] else "") + "arc.zip") + sc["zipsel"]
         protos = set([sc["protoA"], sc["protoB"]] + sc.get("clients", []))
-        refs = {}
-        for p in sorted(protos):
-            req, tls = proto.make_request(p, sel)
-            out, r = harness.one_shot(refroot, req, tls=tls, handlers=sc["handlers"],
-                                      seed=sc["sched_seed"])
-            refs[p] = proto.normalize(p, out)
-            if not proto.is_success(p, out):
-                raise sched.HarnessError("reference listing is not a success: %r" % out[:200])
+
+        def mkrefs(rr):
+            out_refs = {}
+            for p in sorted(protos):
+                req, tls = proto.make_request(p, sel)
+                fresh = os.path.join(base, "reffresh")
+                import shutil
+                shutil.rmtree(fresh, ignore_errors=True)
+                harness.copy_tree(rr, fresh)
+                out, r = harness.one_shot(fresh, req, tls=tls, handlers=sc["handlers"],
+                                          seed=sc["sched_seed"])
+                out_refs[p] = proto.normalize(p, out)
+                if proto.is_not_found(p, out):
+                    raise sched.HarnessError("reference listing is an error reply: %r" % out[:200])
+            return out_refs
+
+        refs = mkrefs(refroot)
+        sc = dict(sc)
+        sc["_refs_after"] = refs
+        if sc.get("mutate"):
+            _mutate(refroot, sc["mutate"], sched.EPOCH + 200.0)
+            sc["_refs_after"] = mkrefs(refroot)
         tp = Tape(sc["sched_seed"], replay=tape)
         if sc["kind"] == "race":
             return _exec_race(sc, root, refs, sel, tp)
@@ -162,6 +183,21 @@ def execute(sc, tape=None):
         if sc["kind"] == "zip":
             return _exec_zip(sc, root, refs, sel, tp)
         return _exec_cut(sc, root, refs, sel, tp)
+
+
+def _mutate(root, m, now):
+    p = os.path.join(root, m["p"])
+    if m["op"] == "delete":
+        if os.path.isdir(p) and not os.path.islink(p):
+            import shutil
+            shutil.rmtree(p)
+        else:
+            os.unlink(p)
+    elif m["op"] == "rename":
+        os.rename(p, os.path.join(root, m["to"]))
+    else:
+        simfs.write_file(p, b"created later\n", now)
+    simfs.real_utime(os.path.dirname(p), (now, now))
 
 
 def _mkrun(sc, root, tp, start=sched.EPOCH, **kw):
@@ -207,12 +243,16 @@ def _exec_cut(sc, root, refs, sel, tp):
         elif viol is None:
             # second write of the same cache, after the lifetime, with a fault inside the write
             run.advance(200.0)
-            fk = "crash" if kind == "crash" else "enospc"
+            if sc.get("mutate"):
+                _mutate(root, sc["mutate"], sched.EPOCH + 200.0)
+                counters["mutated_before_rewrite"] = 1
+            refs = sc["_refs_after"]
+            fk = {"crash": "crash", "enospc": "enospc", "enospc-close": "enospc_close"}[kind]
             run.fs.faults.append(simfs.Fault("write", cacherel, fk, nth=0, cut=cut))
             c2 = run.client(reqA, tls=tlsA)
             run.go()
             resps.append(bytes(c2.s2c))
-            if kind == "enospc":
+            if kind in ("enospc", "enospc-close"):
                 viol = _check_resp(sc, run, sc["protoA"], c2, refs, "faulted-response")
             if kind == "crash" and sc["servertype"] == "ThreadingTCPServer":
                 restart = True   # the whole process died with its thread
